@@ -169,12 +169,27 @@ def _dbg(msg):
         print(f"[c07 {_time.time() - _T0:7.1f}s] {msg}", file=sys.stderr, flush=True)
 
 
-class _StubVoronoi:
-    """stands in for RotobjVoronoi / HalfRotobjVoronoi / MikroVoronoi where the Voronoi diagram (not part of C07) would
-    dominate the cost; everything of the factory, the generators and the assertions still runs"""
+_CHEAP = {}
 
-    def __init__(self, *a, **k):
-        pass
+
+def _cheap_voronoi_classes():
+    """Stand-ins for RotobjVoronoi / HalfRotobjVoronoi where the Voronoi diagram (not part of C07) would dominate the cost.
+    They are SUBCLASSES of the package's own MikroVoronoi whose real constructor runs (so whatever it sets up exists):
+    a really constructed package object, only the expensive diagram is left out.  Everything of the factory, the
+    generators, the assertions and the getters still runs."""
+    if not _CHEAP:
+        from molgri.space.voronoi import MikroVoronoi
+
+        class CheapRotobjVoronoi(MikroVoronoi):
+            def __init__(self, my_array, *a, **k):
+                super().__init__(dimensions=int(my_array.shape[1]), N_points=int(len(my_array)))
+
+        class CheapHalfRotobjVoronoi(MikroVoronoi):
+            def __init__(self, my_array, *a, **k):
+                super().__init__(dimensions=int(my_array.shape[1]), N_points=int(len(my_array)) // 2)
+
+        _CHEAP["full"], _CHEAP["half"] = CheapRotobjVoronoi, CheapHalfRotobjVoronoi
+    return _CHEAP["full"], _CHEAP["half"]
 
 
 class _stubbed:
@@ -184,13 +199,16 @@ class _stubbed:
     def __enter__(self):
         if self.on:
             import molgri.space.rotobj as ro
-            self.saved = (ro.RotobjVoronoi, ro.HalfRotobjVoronoi, ro.MikroVoronoi)
-            ro.RotobjVoronoi = ro.HalfRotobjVoronoi = ro.MikroVoronoi = _StubVoronoi
+            self.saved = (ro.RotobjVoronoi, ro.HalfRotobjVoronoi)
+            ro.RotobjVoronoi, ro.HalfRotobjVoronoi = _cheap_voronoi_classes()
 
     def __exit__(self, *a):
         if self.on:
             import molgri.space.rotobj as ro
-            ro.RotobjVoronoi, ro.HalfRotobjVoronoi, ro.MikroVoronoi = self.saved
+            ro.RotobjVoronoi, ro.HalfRotobjVoronoi = self.saved
+
+
+PLUMBING_ERRORS = ("AttributeError", "TypeError", "NameError")
 
 
 # ------------------------------------------------------------------------------------------------------------
@@ -412,19 +430,72 @@ def poly_cases(ctx):
 # ------------------------------------------------------------------------------------------------------------
 # unit cases: implementation, model ops, comparison, oracle
 # ------------------------------------------------------------------------------------------------------------
+# Synthetic objects of package classes are always made by the class's REAL constructor (on its smallest valid input) and
+# only then are PUBLIC attributes overwritten - so everything `__init__` sets up (including private attributes a
+# refactoring may add) exists.  Relied on: public attribute names (G, d, current_level, side_len, current_max_ci,
+# current_nodes; node attributes central_index / projection / level / face) and method names of the unchanged tree;
+# never private data attributes.
+_POLY_TEMPLATE = {}
+
+
+def _real_hypercube():
+    """a really constructed, pristine level-0 Cube4DPolytope (built once, handed out as deep copies)"""
+    import copy
+    if "p" not in _POLY_TEMPLATE:
+        from molgri.space.polytopes import Cube4DPolytope
+        with core.quiet():
+            _POLY_TEMPLATE["p"] = Cube4DPolytope()
+    return copy.deepcopy(_POLY_TEMPLATE["p"])
+
+
 def _stub_polytope(case):
-    import networkx as nx
-    from molgri.space.polytopes import Cube4DPolytope
-    p = Cube4DPolytope.__new__(Cube4DPolytope)
-    p.G = nx.Graph()
-    p.d = 4
+    p = _real_hypercube()
+    p.G.clear()                      # keep the graph object the constructor made, replace its content
     p.current_level = 1
     p.side_len = 1.0
     p.current_max_ci = len(case["pts"])
-    p.current_nodes = (None, 0)
+    p.current_nodes = (None, 0)      # public cache of the sorted nodes: invalidated
     for pt, pr, ci in zip(case["pts"], case["proj"], case["order"]):
         p.G.add_node(tuple(pt), central_index=ci, projection=np.array(pr), level=0, face=set())
     return p
+
+
+_PRIVATE_NAME = None
+
+
+def stub_plumbing_error(e, probe):
+    """Is this exception a failure of the stub plumbing rather than of the code under test?  Yes iff it is an
+    AttributeError / TypeError / NameError that names a private attribute or helper (`_something`) or the harness's own
+    stand-in class, AND the same call on a really constructed, unmodified object (`probe()`) works."""
+    import re
+    if not isinstance(e, (AttributeError, TypeError, NameError)):
+        return False
+    msg = str(e)
+    if not (re.search(r"['\"`]_[A-Za-z]\w*['\"`]", msg) or re.search(r"\b_[A-Za-z]\w*\(\)", msg) or "_StubVoronoi" in msg):
+        return False
+    try:
+        with core.quiet():
+            probe()
+    except Exception:  # noqa: BLE001  the call fails on a real object too: not the stub's fault
+        return False
+    return True
+
+
+def _cheap_then_real(run):
+    """run(cheap=True) with the cheap Voronoi stand-ins; if that dies with an error that may be the stand-in's fault, the same
+    with the really constructed Voronoi objects decides (its result or its error is what counts)"""
+    try:
+        return run(True)
+    except (AttributeError, TypeError, NameError) as e:
+        first = f"{type(e).__name__}: {str(e)[:200]}"
+    try:
+        out = run(False)
+    except (AssertionError, AttributeError, TypeError, NameError):
+        raise           # the assertions of gen_grid / errors of the code itself on really constructed objects: real outcomes
+    except Exception:  # noqa: BLE001  scipy / qhull cannot build a diagram of a hand-made grid (e.g. rows of norm 1+1e-5 that
+        return {"stub_incompatible": first}      # pass the 2e-5 assertion): not C07's subject, the case cannot be decided
+    out["stub_note"] = first
+    return out
 
 
 def unit_impl(case):
@@ -447,18 +518,28 @@ def unit_impl(case):
                         "all": rows_f(g.get_grid_as_array(only_upper=False))}
             if k == "gencheck":
                 from molgri.space.rotobj import RandomQRotations, RandomSRotations
-                g = (RandomSRotations if case["dims"] == 3 else RandomQRotations)(N=case["N"])
-                g.grid = np.array(case["G"], dtype=float).reshape(len(case["G"]), -1) if case["G"] else np.zeros((0, case["dims"]))
-                with _stubbed():
-                    res = g.gen_grid()
-                return {"ok": True, "same": bool(res is g.grid)}
+
+                def run(cheap):
+                    g = (RandomSRotations if case["dims"] == 3 else RandomQRotations)(N=case["N"])      # real constructor
+                    g.grid = np.array(case["G"], dtype=float).reshape(len(case["G"]), -1) if case["G"] else np.zeros((0, case["dims"]))
+                    with _stubbed(cheap):
+                        res = g.gen_grid()
+                    return {"ok": True, "same": bool(res is g.grid)}
+                return _cheap_then_real(run)
             if k == "polyget":
                 p = _stub_polytope(case)
                 w = case["which"]
-                if w.startswith("half"):
-                    a = p.get_half_of_hypercube(projection=(w == "half_proj"), N=case["N"])
-                else:
-                    a = p.get_nodes(N=case["N"], projection=(w == "nodes_proj"))
+
+                def call(q, N):
+                    if w.startswith("half"):
+                        return q.get_half_of_hypercube(projection=(w == "half_proj"), N=N)
+                    return q.get_nodes(N=N, projection=(w == "nodes_proj"))
+                try:
+                    a = call(p, case["N"])
+                except (AttributeError, TypeError, NameError) as e:
+                    if stub_plumbing_error(e, lambda: call(_real_hypercube(), 3)):
+                        return {"stub_incompatible": f"{type(e).__name__}: {str(e)[:200]}"}
+                    raise
                 return {"rows": rows_f(a) if len(a) else []}
             if k == "rotz":
                 from scipy.spatial.transform import Rotation
@@ -469,9 +550,11 @@ def unit_impl(case):
                 return {"level": int(g.polytope.current_level) - 1}
             if k == "factory":
                 from molgri.space.rotobj import SphereGridFactory
-                with _stubbed():
-                    g = SphereGridFactory.create(case["alg"], 8 if case["alg"] == "fulldiv" else 2, case["dims"])
-                return {"alg": g.algorithm_name}
+                def run(cheap):
+                    with _stubbed(cheap):
+                        g = SphereGridFactory.create(case["alg"], 8 if case["alg"] == "fulldiv" else 2, case["dims"])
+                    return {"alg": g.algorithm_name}
+                return _cheap_then_real(run)
             if k == "named":
                 from molgri.naming import GridNameParser
                 from molgri.space.rotobj import SphereGridFactory
@@ -534,9 +617,26 @@ def unit_ops(case, out):
     raise core.HarnessError(k)
 
 
+def _stub_incompatible(ctx, case, out):
+    """a synthetic object could not be driven through the code under test although a really constructed one can: harness
+    plumbing, neither a correspondence break nor a failing input (counted, and said aloud)"""
+    ctx.branch("stub_incompatible")
+    if not getattr(ctx, "_c07_stub_note", False):
+        ctx._c07_stub_note = True
+        print(f"NOTE: C07 stub_incompatible: a hand-made / stand-in object ({case.get('kind')} case) does not fit the current code "
+              f"({out['stub_incompatible']}); such cases are repeated with really constructed objects or skipped; all checks "
+              f"on really constructed objects still run")
+        ctx.note(f"stub_incompatible: {out['stub_incompatible']}")
+
+
 def unit_compare(ctx, case, out, m):
     k = case["kind"]
     ctx.branch("unit:" + k)
+    if "stub_incompatible" in out:
+        _stub_incompatible(ctx, case, out)
+        return
+    if "stub_note" in out:
+        _stub_incompatible(ctx, case, {"stub_incompatible": out["stub_note"]})
     m0 = m[0]
     if "err" in out or "err" in m0:
         ctx.branch(f"unit:{k}:err:{out.get('err', 'none')}")
@@ -645,6 +745,8 @@ def unit_oracle(ctx, case, out):
     Malformed inputs are still compared with the model (ctx.corr, in unit_compare): a changed behaviour there breaks the tie,
     it is never presented as an input on which the property fails."""
     k = case["kind"]
+    if "stub_incompatible" in out:
+        return
     if k == "upper":
         if not all(math.isfinite(float(x)) for x in case["q"]):
             ctx.branch("excluded:upper_non_finite")
@@ -853,6 +955,13 @@ def _with_limit(fn, case):
 def _grid_task(case):
     """worker: implementation + the statement's oracle; big arrays are dropped when the model does not need them"""
     out = _with_limit(grid_impl, case)
+    if case.get("stub") and out.get("err") in PLUMBING_ERRORS:
+        # possibly the cheap Voronoi stand-in does not fit the current code: repeat with the really constructed Voronoi
+        # objects; only if that works is the first failure put down to the stand-in (otherwise the real failure is reported)
+        again = _with_limit(grid_impl, {**case, "stub": False})
+        if "err" not in again:
+            again["stub_incompatible"] = f"{out['err']}: {out.get('msg', '')}"
+        out = again
     fails = grid_check(case, out)
     if not case.get("model", True) and "err" not in out:
         out = {k: v for k, v in out.items() if k not in ("full", "upper", "idx")}
@@ -1001,6 +1110,8 @@ def run_grids(ctx, cases):
             ctx.branch(f"grid:time_generation={bool(cfg['tg'])}")
         if "err" in o:
             ctx.branch(f"grid:err:{o['err']}")
+        if o.get("stub_incompatible"):
+            _stub_incompatible(ctx, c, o)
         for key, what, exp, obs in fails:
             ctx.fail(key, what, c, exp, obs)
         if c.get("model", True) or "err" in o:
